@@ -12,7 +12,7 @@ From AV Require Import Base.Bytes Base.Outcome Hash.HashModel Tree.Heap Tree.Ops
   Tree.IndexProofsTree Tree.IndexProofsCreate Tree.IndexProofsNamed Tree.IndexProofsEdit Tree.Refs Tree.RefsProofsBase Tree.RefsProofs
   Tree.Follow Tree.FollowProofsPath Tree.FollowProofsLoop Tree.FollowProofsLoopG Tree.FollowProofsRename Tree.FollowProofsTree
   Tree.FollowProofsMove Tree.FollowProofsIter Tree.FollowProofsContainer Tree.FollowProofsCross
-  Tree.IndexProofsRemove Tree.IndexProofsRemoveOp Tree.IndexProofsMoveTree Tree.IndexProofsMoveOp Tree.IndexProofsReg
+  Tree.IndexProofsRemove Tree.IndexProofsRemoveOp Tree.IndexProofsMoveTree Tree.IndexProofsMoveOp Tree.IndexProofsReg Tree.Fail Tree.FailProofsMove
   Tree.RefsAll Tree.IndexProofsMoveCross Tree.IndexProofsRename Tree.IndexProofsRenameOps Tree.IndexProofsSetName Tree.RefsProofsSetName.
 Open Scope string_scope.
 Open Scope list_scope.
@@ -651,6 +651,75 @@ Proof.
   exact (relocx_j5 T check_fn TK w wf mv sp self s mn pn n kpos (N.to_nat pos) ms m xs xm spp dpre nm idf K L IDM ORM ids rtx
            HT H4 H5 Hmn Hpar Hpn Eidx Hn Hsm Hself_out Hself_sp Hpos Hids_D Hmm Hidf Hs Hnmsf Hrtx Hnodes Hnext Hspp Hdp Hxs Hxm Hmodels
            HK HR Hfront_src Hfd Hmvns (Hselfmode n Hn) Hidm_nd Hidm Horm Horm_nd Horm_tidy).
+Qed.
+
+(* ---------- the public calls, both routes *)
+Variable root_attrs : list (N * cdata).
+Notation Known05 := (Known05 T tab_el tab_en check_fn LATEST root_attrs).
+Notation Known05a := (Known05a T tab_el tab_en check_fn LATEST root_attrs).
+
+Theorem C45_move_all h mv w r w' :
+  J5 w -> RefStr T w -> Known04 T LATEST w (OpMove h mv) = false -> Known05a w (OpMove h mv) = false ->
+  e_move_element_here T tab_en check_fn LATEST h mv w = Val (r, w') -> J5 w'.
+Proof.
+  intros HJ HRS HK4 HK5a H. cbn [RefsAll.Known05a] in HK5a. apply orb_false_iff in HK5a as (HK5 & HKx).
+  destruct (same_model w h mv) eqn:Esm.
+  { eapply (C45_move T tab_el tab_en check_fn LATEST TK root_attrs); eauto. }
+  destruct r as [i|e].
+  2:{ destruct (e_move_here_fail T tab_en check_fn LATEST h mv w e w' H) as [->|(_ & Hpl)]; [exact HJ|]. exfalso.
+      cbn [Refs.Known05 run_op] in HK5. apply orb_false_iff in HK5 as (_ & HK5). unfold welem, wbind in HK5. rewrite H in HK5. apply negb_false_iff, plink_eqb_true in HK5. contradiction. }
+  pose proof HJ as (HT & H4 & H5). cbn [Known04] in HK4. apply orb_false_iff in HK4 as (HK4 & Hsrcf). apply orb_false_iff in HK4 as (Hshort & Hfront).
+  unfold e_move_element_here in H. destruct (h =? mv) eqn:Ehm; [discriminate H|]. apply N.eqb_neq in Ehm.
+  wk H. wk H. wk H. wk H. destruct (negb (a2 =? a1)); [discriminate H|].
+  wk H. apply get_node_inv in E3 as (n & Hn & Q & _). injection Q as ->.
+  wk H. apply get_node_inv in E3 as (mn & Hmn & Q & _). injection Q as ->.
+  wk H. destruct a3 as (rs, re).
+  unfold same_model in Esm. rewrite E0, E in Esm. rewrite Esm in H. apply N.eqb_neq in Esm.
+  assert (HR1 : MReach T w a mv) by (apply model_of_mreach; assumption).
+  assert (HR2 : MReach T w a0 h) by (apply model_of_mreach; assumption).
+  assert (HM : forall n0, w_nodes w h = Some n0 -> content_mode T (n_type n0) <> Val MCharacters).
+  { intros n0 Hn0. assert (n0 = n) by congruence. subst n0. eapply calc_range_mode; eauto. }
+  assert (HFd : N.to_nat re = O -> identifiable T w h = false).
+  { intros Hre. unfold nm_of in Hfront. rewrite Hmn in Hfront.
+    destruct (front_false_end T LATEST w h n (n_name mn) a2 rs re Hn E2 E3 Hfront Hre) as (Hi & _). unfold identifiable. rewrite Hn. exact Hi. }
+  assert (HFs : forall mn0 sp0, w_nodes w mv = Some mn0 -> n_parent mn0 = PElem sp0 -> remove_front T w sp0 (N.eqb mv) = false).
+  { intros mn0 sp0 Hmn0 Hp0. eapply src_front_false; eauto. }
+  assert (Hcol : identifiable T w mv = false -> collision_x T w h mv = false).
+  { intros Hni. rewrite Hni in HKx. exact HKx. }
+  eapply (move_full_j5 h mv re a0 a a2 w w' i HJ HRS H); eauto.
+Qed.
+
+Theorem C45_move_at_all h mv pos w r w' :
+  J5 w -> RefStr T w -> Known04 T LATEST w (OpMoveAt h mv pos) = false -> Known05a w (OpMoveAt h mv pos) = false ->
+  e_move_element_here_at T tab_en check_fn LATEST h mv pos w = Val (r, w') -> J5 w'.
+Proof.
+  intros HJ HRS HK4 HK5a H. cbn [RefsAll.Known05a] in HK5a. apply orb_false_iff in HK5a as (HK5 & HKx).
+  destruct (same_model w h mv) eqn:Esm.
+  { eapply (C45_move_at T tab_el tab_en check_fn LATEST TK root_attrs); eauto. }
+  destruct r as [i|e].
+  2:{ destruct (e_move_here_at_fail T tab_en check_fn LATEST h mv pos w e w' H) as [->|(_ & Hpl)]; [exact HJ|]. exfalso.
+      cbn [Refs.Known05 run_op] in HK5. apply orb_false_iff in HK5 as (_ & HK5). unfold welem, wbind in HK5. rewrite H in HK5. apply negb_false_iff, plink_eqb_true in HK5. contradiction. }
+  pose proof HJ as (HT & H4 & H5). cbn [Known04] in HK4. apply orb_false_iff in HK4 as (HK4 & Hspn). apply orb_false_iff in HK4 as (HK4 & Hsrcf).
+  apply orb_false_iff in HK4 as (Hshort & Hfront).
+  unfold e_move_element_here_at in H. destruct (h =? mv) eqn:Ehm; [discriminate H|]. apply N.eqb_neq in Ehm.
+  wk H. wk H. wk H. wk H. destruct (negb (a2 =? a1)); [discriminate H|].
+  wk H. apply get_node_inv in E3 as (n & Hn & Q & _). injection Q as ->.
+  wk H. apply get_node_inv in E3 as (mn & Hmn & Q & _). injection Q as ->.
+  wk H. destruct a3 as (rs, re).
+  destruct ((rs <=? pos) && (pos <=? re)); [|discriminate H].
+  unfold same_model in Esm. rewrite E0, E in Esm. rewrite Esm in H. apply N.eqb_neq in Esm.
+  assert (HR1 : MReach T w a mv) by (apply model_of_mreach; assumption).
+  assert (HR2 : MReach T w a0 h) by (apply model_of_mreach; assumption).
+  assert (HM : forall n0, w_nodes w h = Some n0 -> content_mode T (n_type n0) <> Val MCharacters).
+  { intros n0 Hn0. assert (n0 = n) by congruence. subst n0. eapply calc_range_mode; eauto. }
+  assert (HFd : N.to_nat pos = O -> identifiable T w h = false).
+  { intros Hre. unfold nm_of in Hfront. rewrite Hmn in Hfront.
+    destruct (front_false_at T LATEST w h n (n_name mn) pos Hn Hfront Hre) as (Hi & _). unfold identifiable. rewrite Hn. exact Hi. }
+  assert (HFs : forall mn0 sp0, w_nodes w mv = Some mn0 -> n_parent mn0 = PElem sp0 -> remove_front T w sp0 (N.eqb mv) = false).
+  { intros mn0 sp0 Hmn0 Hp0. eapply src_front_false; eauto. }
+  assert (Hcol : identifiable T w mv = false -> collision_x T w h mv = false).
+  { intros Hni. rewrite Hni in HKx. exact HKx. }
+  eapply (move_full_j5 h mv pos a0 a a2 w w' i HJ HRS H); eauto.
 Qed.
 
 End MoveX.
